@@ -507,6 +507,26 @@ fn generate(tier: &str, seed: u64) -> (Vec<String>, BTreeMap<&'static str, u64>)
         cases.push(format!("G {} {}", next_id(), ops.join(",")));
     }
 
+    // --- long runs: the table's use-time clock after hundreds of messages (a full table, one busy
+    //     sender, then a 17th sender and copies of the busy sender's messages)
+    for talk in [10u64, 200, 239, 240, 255, 256, 300, 600] {
+        let mut ops = Vec::new();
+        for s in 0..16u64 {
+            ops.push(format!("1:{}:{}", 2000 + s, 100));
+        }
+        for k in 0..talk {
+            ops.push(format!("1:{}:{}", 2000 + (k % 3), 101 + k));
+        }
+        ops.push("1:9999:5".to_string());
+        for s in 0..3u64 {
+            ops.push(format!("1:{}:{}", 2000 + s, 100 + talk));
+            ops.push(format!("1:{}:{}", 2000 + s, 100));
+        }
+        ops.push("1:9998:5".to_string());
+        ops.push("1:2000:100".to_string());
+        cases.push(format!("G {} {}", next_id(), ops.join(",")));
+    }
+
     // --- the real group receive path: authentic and forged group messages of up to three senders
     for n in 0..(if thorough { 1500 } else { 250 }) {
         let nsend = rng.range(1, 3) as usize;
